@@ -202,4 +202,20 @@ theorem sgnMul_int (P : X86Params) (hP : IsLvl P) (u f : Nat) (hu : u < 2 ^ P.B)
       omega
     rw [e2, Int.mul_emod_right]
 
+
+/-- Full documented contract of `lin` ("f, g signed, less than 2^62 in absolute value"): FALSE for the code
+    as written, at every level.  When the high part of the linear combination needs the second word
+    `h1 ≠ 0`, the fold `e = rem0 + rem1`, carry into `f0` is not a reduction modulo `c` (lvl1: off by one
+    when `rem0 + rem1 ≥ 6`; lvl3/lvl5: the identity `2^64 = c·linK + 1` used by the code does not hold,
+    `2^64 mod 65 = 16`, `2^64 mod 27 = 25`).  Not reachable through the public API: `div` only passes
+    `|f|,|g| ≤ 2^31` (outer loop) and `≤ 2^final ≤ 2^51` (final combination), covered by `lin_spec`. -/
+theorem lin_defect (P : X86Params) (hP : IsLvl P) :
+    let u := 2 ^ P.B - 1
+    let f := 2 ^ 62 - 1
+    ¬ (lin P u u f f < 2 ^ P.B ∧ lin P u u f f % P.q = (sgnMul P u f + sgnMul P u f) % P.q) := by
+  rcases hP with rfl | rfl | rfl <;> decide +kernel
+
+theorem linK_identity : 2 ^ 64 = x1.c * x1.linK + 1 ∧ 2 ^ 64 ≠ x3.c * x3.linK + 1 ∧ 2 ^ 64 ≠ x5.c * x5.linK + 1 := by
+  decide
+
 end SqiProofs.GfX86
